@@ -14,7 +14,8 @@ git apply --check "$O/patch.diff" || { echo "PATCH DOES NOT APPLY"; exit 1; }
 git apply "$O/patch.diff"
 echo "## full suite with the change"
 cargo nextest run --workspace --no-fail-fast --offline 2>&1 | tail -3
-if [ -f "$O/demo/demo.rs" ]; then cp "$O/demo/demo.rs" tests/demo.rs; DEMO="cargo test --offline --test demo"; 
+FEAT=$(python3 -c "import json; f=json.load(open('$O/meta.json')).get('demo_features',''); print('--features '+f if f else '')" 2>/dev/null)
+if [ -f "$O/demo/demo.rs" ]; then cp "$O/demo/demo.rs" tests/demo.rs; DEMO="cargo test --offline $FEAT --test demo"; 
 elif [ -f "$O/demo/demo.diff" ]; then git apply "$O/demo/demo.diff"; DEMO="cargo test --offline --lib demo"; fi
 echo "## demo with the change ($DEMO)"
 $DEMO 2>&1 | grep -E "^test |test result|panicked|error" | head -20
